@@ -9,3 +9,6 @@ pub assume_specification<T, U, D: FnOnce() -> U, F: FnOnce(T) -> U>[ Option::<T>
 pub assume_specification<T, P: FnOnce(&T) -> bool>[ Option::<T>::filter ](o: Option<T>, p: P) -> (r: Option<T>)
     requires o is Some ==> p.requires((&o->Some_0,)),
     ensures o is None ==> r is None, o is Some ==> (r is None || r == o), o is Some ==> (p.ensures((&o->Some_0,), true) ==> r == o);
+// `impl<T: Clone> ToOwned for T`: to_owned() is clone()
+pub assume_specification<T: Clone>[ <T as std::borrow::ToOwned>::to_owned ](t: &T) -> (r: T)
+    ensures call_ensures(T::clone, (t,), r);
